@@ -4,6 +4,8 @@ CONSTANTS
   MaxOps = 1000000
   Mode = "own"
   NP = 6
+  Terminals = {"text", "markdown", "mdopts", "fragments", "lines", "paragraphs", "readingorder", "analyze", "headings", "lists", "blocks", "elements", "document", "chunks", "chunkscfg"}
+  NonTerminals = {"pagecount", "ischarlevel", "ismulticol"}
 INVARIANTS DeriveIsPure OneOwner
 POSTCONDITION TraceAccepted
 CHECK_DEADLOCK FALSE
